@@ -130,8 +130,14 @@ func c24(repo string, out *fg.Out) error {
 	if ecl == nil || !containsText(sf, ecl.Body, "reader.entriesSinceCheckpoint = 0") || !containsText(sf, ecl.Body, "reader.cumulativeHash.Sum(") {
 		return fmt.Errorf("Sender.emitCheckpointLocked: expected cumulativeHash.Sum(...) and entriesSinceCheckpoint = 0")
 	}
-	if containsText(sf, ecl.Body, "cumulativeHash.Reset(") {
-		return fmt.Errorf("Sender.emitCheckpointLocked resets the running hash (model keeps it running)")
+	// scope of the running hash on the sender: whole session (never reset after PrepareReader) or
+	// per checkpoint window (reset / re-created anywhere in the send path)
+	senderScope := "session"
+	for _, fn := range []string{"emitCheckpointLocked", "sendToReader"} {
+		fd := sf.FuncDecl("Sender", fn)
+		if fd != nil && (containsText(sf, fd.Body, "cumulativeHash.Reset(") || containsText(sf, fd.Body, "cumulativeHash = ")) {
+			senderScope = "window"
+		}
 	}
 
 	// ---- wal.go hook path
@@ -291,6 +297,24 @@ func c24(repo string, out *fg.Out) error {
 			co = append(co, "hmac")
 		}
 	}
+	// scope of the running hash on the receiver: `cumulativeHash := sha256.New()` once before the
+	// loop and never reset / reassigned inside it
+	recvScope := "session"
+	if !containsText(rf, rl.Body, "cumulativeHash := sha256.New()") {
+		return fmt.Errorf("receiveLoop: `cumulativeHash := sha256.New()` not found")
+	}
+	var loop *ast.ForStmt
+	for _, st := range rl.Body.List {
+		if fs, ok := st.(*ast.ForStmt); ok {
+			loop = fs
+		}
+	}
+	if loop == nil {
+		return fmt.Errorf("receiveLoop: main for loop not found")
+	}
+	if containsText(rf, loop.Body, "cumulativeHash.Reset(") || containsText(rf, loop.Body, "cumulativeHash = ") || containsText(rf, loop.Body, "cumulativeHash := ") {
+		recvScope = "window"
+	}
 	// ---- security constants
 	secFiles, err := fg.ParseDir(repo, "internal/cluster/security")
 	if err != nil {
@@ -347,6 +371,9 @@ func c24(repo string, out *fg.Out) error {
 	fmt.Fprintf(w, "def defaultCheckpointInterval : Nat := %d\n", ckInt)
 	fmt.Fprintf(w, "def entryTagLen : Nat := %d\n", tagLen)
 	fmt.Fprintf(w, "def hmacToleranceSec : Int := %d\n", tolNs/1_000_000_000)
+	fmt.Fprintf(w, "/-- what the checkpoint hash covers on each side: \"session\" = every payload since the handshake, \"window\" = since the previous checkpoint -/\n")
+	fmt.Fprintf(w, "def hashScopeSender : String := %s\n", fg.LeanStr(senderScope))
+	fmt.Fprintf(w, "def hashScopeReceiver : String := %s\n", fg.LeanStr(recvScope))
 	fmt.Fprintf(w, "def recvEntryOrder : List String := %s\n", strs(eo))
 	fmt.Fprintf(w, "def recvCkptOrder : List String := %s\n", strs(co))
 	fmt.Fprintf(w, "end Arc.Generated.C24\n")
@@ -356,6 +383,8 @@ func c24(repo string, out *fg.Out) error {
 	out.JSON["assign_enqueue_atomic"] = effective
 	out.JSON["default_checkpoint_interval"] = ckInt
 	out.JSON["hmac_tolerance_sec"] = tolNs / 1_000_000_000
+	out.JSON["hash_scope_sender"] = senderScope
+	out.JSON["hash_scope_receiver"] = recvScope
 	out.JSON["recv_entry_order"] = eo
 	out.JSON["recv_ckpt_order"] = co
 	return nil
